@@ -141,15 +141,25 @@ func (o outcome) String() string {
 	return fmt.Sprintf("%s@%v", o.Kind, o.At)
 }
 
+// prediction is what the reference says about one transaction.
+type prediction struct {
+	arr  []time.Duration // instants at which the request reaches the server
+	opt  time.Duration   // >= 0: one more transmission at this instant may or may not happen (Close racing with that timer)
+	outs []outcome       // acceptable completions
+}
+
 // reference predicts, for a transaction started at start, the instants at
 // which its request reaches the server and the acceptable ways it completes.
-func reference(start, rto time.Duration, werr int, evs []hEv) (arr []time.Duration, outs []outcome) {
+// raceK in 2..8 says that Client.Close() is called concurrently with the timer
+// of transmission raceK (8 = the timer of the final failure).
+func reference(start, rto time.Duration, werr, raceK int, evs []hEv) prediction {
+	p := prediction{opt: -1}
 	s, fail := sendTimes(start, rto)
 	all := make([]hEv, 0, len(evs)+maxSends+1)
 	for k := 1; k <= maxSends; k++ {
 		all = append(all, hEv{at: s[k], prio: prioTimer, kind: evTx, k: k})
 	}
-	all = append(all, hEv{at: fail, prio: prioTimer, kind: evFail})
+	all = append(all, hEv{at: fail, prio: prioTimer, kind: evFail, k: maxSends + 1})
 	all = append(all, evs...)
 	sort.SliceStable(all, func(i, j int) bool {
 		if all[i].at != all[j].at {
@@ -166,30 +176,41 @@ func reference(start, rto time.Duration, werr int, evs []hEv) (arr []time.Durati
 		if !pending {
 			continue
 		}
+		closed := outcome{Kind: "closed", At: e.at}
 		switch e.kind {
 		case evTx:
-			if werr == e.k {
-				outs = []outcome{{Kind: "write-error", At: e.at}}
+			switch {
+			case werr == e.k && raceK == e.k:
+				p.outs = []outcome{{Kind: "write-error", At: e.at}, closed}
 				pending = false
-			} else {
-				arr = append(arr, e.at)
+			case werr == e.k:
+				p.outs = []outcome{{Kind: "write-error", At: e.at}}
+				pending = false
+			case raceK == e.k:
+				p.outs, p.opt = []outcome{closed}, e.at
+				pending = false
+			default:
+				p.arr = append(p.arr, e.at)
 			}
 		case evFail:
-			outs = []outcome{{Kind: "timeout", At: e.at}}
+			p.outs = []outcome{{Kind: "timeout", At: e.at}}
+			if raceK == e.k {
+				p.outs = append(p.outs, closed)
+			}
 			pending = false
 		case evClose:
-			outs = []outcome{{Kind: "closed", At: e.at}}
+			p.outs = []outcome{closed}
 			pending = false
 		case evResp:
-			outs = []outcome{{Kind: "resp", At: e.at, Marker: e.marker}}
+			p.outs = []outcome{{Kind: "resp", At: e.at, Marker: e.marker}}
 			pending = false
 		case evConc:
-			outs = []outcome{{Kind: "resp", At: e.at, Marker: e.marker}, {Kind: "closed", At: e.at}}
+			p.outs = []outcome{{Kind: "resp", At: e.at, Marker: e.marker}, closed}
 			pending = false
 		}
 	}
 
-	return arr, outs
+	return p
 }
 
 // ------------------------------------------------------------------ world
@@ -456,7 +477,9 @@ func tableSize(c *turn.Client) int {
 }
 
 // checkTx compares one finished main-phase transaction with the reference.
-func (w *world) checkTx(tr *txrun, tag string, wantArr []time.Duration, outs []outcome, arr []arrival) obs {
+func (w *world) checkTx(tr *txrun, tag string, pred prediction, arr []arrival) obs {
+	wo, outs := pred.arr, pred.outs
+	wantArr := wo
 	o := tr.observe()
 	want := make([]string, len(outs))
 	for i, x := range outs {
@@ -525,7 +548,19 @@ func (w *world) checkTx(tr *txrun, tag string, wantArr []time.Duration, outs []o
 			w.violate("retransmit-schedule:source"+tag, "%s transmission %d from %s", tr.name, i+1, a.src)
 		}
 	}
-	if !reflect.DeepEqual(gotT, wantArr) && !(len(gotT) == 0 && len(wantArr) == 0) {
+	same := func(a, b []time.Duration) bool {
+		if len(a) != len(b) {
+			return false
+		}
+		for i := range a {
+			if a[i] != b[i] {
+				return false
+			}
+		}
+
+		return true
+	}
+	if !same(gotT, wantArr) && !(pred.opt >= 0 && same(gotT, append(append([]time.Duration{}, wantArr...), pred.opt))) {
 		sig := "retransmit-schedule:instants"
 		switch {
 		case len(gotT) > maxSends:
@@ -534,6 +569,9 @@ func (w *world) checkTx(tr *txrun, tag string, wantArr []time.Duration, outs []o
 			sig = "retransmit-schedule:extra-transmission"
 		case len(gotT) < len(wantArr):
 			sig = "retransmit-schedule:missing-transmission"
+		}
+		if pred.opt >= 0 {
+			wantArr = append(append([]time.Duration{}, wantArr...), pred.opt) // shown with the optional one
 		}
 		w.violate(sig+tag, "%s: server saw the request at %v, predicted %v (outcome predicted %v observed %v)", tr.name, gotT, wantArr, outs, o)
 	}
